@@ -31,6 +31,9 @@ type Ctx struct {
 	depCache      *depInfo
 	consumerCache map[*ssa.Function]bool
 	wrapperCache  map[*ssa.Function]*wrapperInfo
+	// exactOpenFlags: F2 also rejects open flags beyond O_WRONLY|O_CREATE[|O_APPEND]
+	// (the efivarfs contract of C11; the in-memory register of C12 does not fix them)
+	exactOpenFlags bool
 }
 
 func (c *Ctx) Pos(p token.Pos) string { return c.P.Pos(p) }
